@@ -103,22 +103,30 @@ def _raw_carrier_leak(a, what):
         _leak(what)
 
 
-def np_ones_like(a, dtype=None):
+def np_ones_like(a, dtype=None, subok=True):
     _raw_carrier_leak(a, "np.ones_like(raw carrier)")
+    if subok not in (True, False):
+        raise Unsupported("ones_like(subok=%r)" % (subok,))
     d = M.dtype_of(dtype) if dtype is not None else a.dtype
     if isinstance(a, MArr):
-        raise Unsupported("ones_like of masked array")
+        if subok:
+            raise Unsupported("ones_like of masked array")
+        a = a._data
     a = M._as_arr(a, copy=False)
     return M.const_arr(a.n, d.kind, (False, True if d.kind == "b" else 1), d.unit).copy()
 
 
-def np_full_like(a, fill_value, dtype=None):
+def np_full_like(a, fill_value, dtype=None, subok=True):
+    if subok not in (True, False):
+        raise Unsupported("full_like(subok=%r)" % (subok,))
     if isinstance(a, (dict, type(None))) and dtype is bool:
         # np.full_like(<not an array>, 1, dtype=bool) is the 0-d array(True); it broadcasts in `&`
         # and, used as an index, adds an axis (pandas refuses it)
         return bool(fill_value)
     if isinstance(a, MArr):
-        raise Unsupported("full_like of masked array")
+        if subok:
+            raise Unsupported("full_like of masked array")
+        a = a._data  # subok=False: a plain array of the same shape and (unless dtype is given) element type
     a = M._as_arr(a, copy=False)
     d = M.dtype_of(dtype) if dtype is not None else a.dtype
     p = M._cast_pair(M._scalar_pair(fill_value), d.kind)
